@@ -249,7 +249,12 @@ def anno_resolve_case(rng):
     atom_expect = {}
     text = '[$]'
     idx = 0
-    for j, el in enumerate(rng.choice([['C', 'O', 'C'], ['C', 'O', 'C'], ['O'], ['N']])):     # also one-atom fragments
+    # also one-atom fragments, and a thioether on an aromatic ring ('Sc1…': S followed by an aromatic carbon)
+    for j, el in enumerate(rng.choice([['C', 'O', 'C'], ['C', 'O', 'C'], ['O'], ['N'],
+                                       ['C', 'S', 'c1', 'c', 'c', 'c', 'c', 'c1']])):
+        suffix = ''
+        if len(el) == 2 and el[1] == '1':
+            el, suffix = el[0], '1'
         w = rng.choice([None, '0.5', '2', '0'])
         x = rng.choice([None, None, 'R', 'S']) if el == 'C' else None
         free = rng.choice([None, ('tag', 't%d' % j)])
@@ -260,7 +265,7 @@ def anno_resolve_case(rng):
             ent.append('x=' + x); exp['chiral'] = x
         if free:
             ent.append('%s=%s' % free); exp[free[0]] = free[1]
-        text += '[%s]' % ';'.join([el] + ent) if ent else el
+        text += ('[%s]' % ';'.join([el] + ent) if ent else el) + suffix
         atom_expect[str(idx)] = exp
         idx += 1
         if el == 'C' and rng.random() < 0.35:
